@@ -18,7 +18,9 @@ RULE = ("Kruskal tensors of order 1..4 (mode sizes 1..4, singleton modes) and ra
         "single-mode form; arrange with every component permutation for R<=4 (thorough) and the sort/absorb forms; "
         "fixsigns alone and against references with every sign pattern of the modes; redistribute into every mode; "
         "extract with valid subsets, duplicates and invalid index lists; tovec/from_vector/update/tolist; + - neg * ; "
-        "score against permuted / perturbed copies; malformed arguments for each operation; "
+        "score against permuted / perturbed copies; malformed arguments for each operation; sequences of 3..8 calls on live "
+        "objects (tovec / tolist / extract / copy / from_vector / update from shared vectors / + / - followed by in-place "
+        "normalize / arrange / fixsigns / redistribute) with denotation, bitwise frame and round-trip checks after every step; "
         "non-trivial = accepted and the tensor is not identically zero; distinct = distinct case hash")
 ASSUMPTIONS = [
     "square roots and N-th roots are computed exactly in the model when rational and to 2^-80 otherwise; the "
@@ -1091,5 +1093,384 @@ class Score(KFamily):
         return False
 
 
+# ----------------------------------------------------------------------------
+# 6. sequences of calls on live objects
+# ----------------------------------------------------------------------------
+def _kbytes(K):
+    return (np.asarray(K.weights).tobytes(), tuple(np.asarray(K.weights).shape),
+            tuple((np.asarray(f).tobytes(), tuple(np.asarray(f).shape)) for f in K.factor_matrices))
+
+
+def _snap(env):
+    out = {}
+    for i, K in enumerate(env["ks"]):
+        out[("k", i)] = _kbytes(K)
+    for i, v in enumerate(env["vs"]):
+        out[("v", i)] = (np.asarray(v).tobytes(), tuple(np.asarray(v).shape))
+    for i, l in enumerate(env["ls"]):
+        out[("l", i)] = tuple((np.asarray(f).tobytes(), tuple(np.asarray(f).shape)) for f in l)
+    return out
+
+
+def _env_j(env):
+    return {"ks": [kj(K) for K in env["ks"]], "vs": [jval(np.asarray(v)) for v in env["vs"]],
+            "ls": [[jval(np.asarray(f)) for f in l] for l in env["ls"]]}
+
+
+INPLACE = ("normalize", "arrange", "fixsigns", "fixsigns_ref", "redistribute")
+
+
+class Sequences(Family):
+    """multi-step programs: objects are created from one another (tovec, tolist, extract, copy, from_vector,
+    update from shared vectors, + / -), then re-parameterised in place; after EVERY step the receiver must
+    denote the same array, every other live object must be bitwise unchanged, the round trips must still
+    reproduce the object, and the whole environment must agree with the model."""
+    name = "sequences"
+    theorems = ("C08_seq_inplace", "C08_seq_frame", "C08_vec_roundtrip", "C08_update_roundtrip")
+
+    # generation --------------------------------------------------------------
+    @staticmethod
+    def _inplace(rng, k, Rs, N, others):
+        u = rng.random()
+        if u < 0.45:
+            wf = rng.choice([None, None, "all"] + list(range(N)))
+            mode = rng.choice([None, None, None] + list(range(N)))
+            return {"op": "normalize", "k": k, "wf": wf, "sort": rng.random() < 0.4,
+                    "nt": rng.choice(["1", "2", "inf"]), "mode": mode}
+        if u < 0.65:
+            v = rng.random()
+            if v < 0.4:
+                return {"op": "arrange", "k": k, "wf": None, "perm": gen.perm(rng, Rs[k])}
+            return {"op": "arrange", "k": k, "wf": rng.choice([None] + list(range(N))), "perm": None}
+        if u < 0.78:
+            return {"op": "fixsigns", "k": k}
+        if u < 0.88 and others:
+            return {"op": "fixsigns_ref", "k": k, "other": rng.choice(others)}
+        return {"op": "redistribute", "k": k, "mode": rng.randrange(N)}
+
+    def _program(self, rng, s, R):
+        N = len(s)
+        Rs = [R, R]          # rank of every live ktensor
+        vs = []              # (length, w, R)
+        ls = []              # R
+        prog = []
+        touched = []
+
+        def modes_for(k, v):
+            ln, w, _ = vs[v]
+            cand = list(range(-1, N))
+            rng.shuffle(cand)
+            take, need = [], 0
+            for m in cand:
+                c = Rs[k] if m == -1 else s[m] * Rs[k]
+                if need + c <= ln and rng.random() < 0.7:
+                    take.append(m)
+                    need += c
+            return sorted(take) or [0]
+
+        def create():
+            u = rng.random()
+            k = rng.randrange(len(Rs))
+            if u < 0.22 or not vs:
+                w = rng.random() < 0.6
+                prog.append({"op": "tovec", "k": k, "w": w})
+                vs.append((Rs[k] * (sum(s) + (1 if w else 0)), w, Rs[k]))
+            elif u < 0.50:
+                v = rng.randrange(len(vs))
+                same = [i for i, r in enumerate(Rs) if r == vs[v][2]]
+                k2 = rng.choice(same) if same and rng.random() < 0.9 else k
+                prog.append({"op": "update", "k": k2, "modes": modes_for(k2, v), "v": v})
+                touched.append(k2)
+            elif u < 0.60:
+                v = rng.randrange(len(vs))
+                prog.append({"op": "from_vector", "v": v, "shape": s, "w": vs[v][1]})
+                Rs.append(vs[v][2])
+                touched.append(len(Rs) - 1)
+            elif u < 0.70:
+                idx = rng.sample(range(Rs[k]), rng.randint(1, Rs[k]))
+                prog.append({"op": "extract", "k": k, "idx": idx})
+                Rs.append(len(idx))
+                touched.append(len(Rs) - 1)
+            elif u < 0.78:
+                prog.append({"op": "copy", "k": k})
+                Rs.append(Rs[k])
+                touched.append(len(Rs) - 1)
+            elif u < 0.88:
+                b = rng.randrange(len(Rs))
+                if Rs[k] + Rs[b] <= 5:
+                    prog.append({"op": rng.choice(["add", "sub"]), "a": k, "b": b})
+                    Rs.append(Rs[k] + Rs[b])
+                    touched.append(len(Rs) - 1)
+            elif u < 0.95 or not ls:
+                prog.append({"op": "tolist", "k": k, "mode": rng.choice([None] + list(range(N)))})
+                ls.append(Rs[k])
+            else:
+                l = rng.randrange(len(ls))
+                prog.append({"op": "construct", "l": l})
+                Rs.append(ls[l])
+                touched.append(len(Rs) - 1)
+
+        def inplace():
+            k = rng.choice(touched) if touched and rng.random() < 0.7 else rng.randrange(len(Rs))
+            others = [i for i, r in enumerate(Rs) if i != k and r <= Rs[k]]
+            prog.append(self._inplace(rng, k, Rs, N, others))
+            touched.append(k)
+
+        for _ in range(rng.randint(1, 3)):
+            create()
+        for _ in range(rng.randint(1, 3)):
+            inplace()
+        if rng.random() < 0.5:
+            create()
+            inplace()
+        return prog
+
+    def gen(self, rng, tier):
+        out = []
+        n = 90 if tier == "quick" else 1500
+        # the fixed patterns: one vector feeding several updates, then in-place calls
+        for s in ([2, 3], [3], [2, 2, 3], [3, 1, 2]):
+            N = len(s)
+            R = rng.choice([1, 2, 3])
+            ks = [gen_kt(rng, s, R, zero_cols=0.05), gen_kt(rng, s, R, zero_cols=0.05)]
+            allm = list(range(-1, N))
+            fm = list(range(N))
+            nrm = lambda k: {"op": "normalize", "k": k, "wf": None, "sort": False, "nt": "2", "mode": None}
+            progs = [
+                [{"op": "tovec", "k": 1, "w": True}] + [{"op": "update", "k": 0, "modes": [m], "v": 0} for m in fm]
+                + [nrm(0), {"op": "fixsigns", "k": 0}],
+                [{"op": "tovec", "k": 0, "w": True}, {"op": "update", "k": 0, "modes": allm, "v": 0},
+                 {"op": "update", "k": 1, "modes": allm, "v": 0}, self._inplace(rng, 0, [R, R], N, [1]),
+                 {"op": "arrange", "k": 1, "wf": None, "perm": None}],
+                [{"op": "tovec", "k": 0, "w": False}, {"op": "update", "k": 1, "modes": fm, "v": 0}, nrm(1),
+                 {"op": "from_vector", "v": 0, "shape": s, "w": False}, {"op": "redistribute", "k": 1, "mode": N - 1}],
+                [{"op": "tolist", "k": 0, "mode": None}, {"op": "construct", "l": 0}, nrm(2),
+                 {"op": "redistribute", "k": 0, "mode": 0}, {"op": "tolist", "k": 1, "mode": 0}],
+                [{"op": "extract", "k": 0, "idx": [R - 1]}, {"op": "copy", "k": 0}, {"op": "add", "a": 0, "b": 1},
+                 {"op": "arrange", "k": 4, "wf": None, "perm": None}, {"op": "fixsigns", "k": 2},
+                 {"op": "normalize", "k": 0, "wf": "all", "sort": True, "nt": "1", "mode": None},
+                 {"op": "fixsigns_ref", "k": 3, "other": 1}],
+            ]
+            for p in progs:
+                out.append({"ks": ks, "vs": [], "ls": [], "prog": p})
+        for _ in range(n):
+            s = gen.shape(rng, 1, 3 if rng.random() < 0.85 else 4, 3)
+            R = rng.choice([1, 2, 2, 3])
+            ks = [gen_kt(rng, s, R, zero_cols=0.08), gen_kt(rng, s, R, zero_cols=0.08)]
+            out.append({"ks": ks, "vs": [], "ls": [], "prog": self._program(rng, s, R)})
+        return out
+
+    def shrink(self, case):
+        prog = case["prog"]
+        for i in range(len(prog) - 1, -1, -1):
+            yield dict(case, prog=prog[:i] + prog[i + 1:])
+        if len(prog) > 1:
+            yield dict(case, prog=prog[:-1])
+
+    # one step on the implementation ------------------------------------------------
+    @staticmethod
+    def _do(env, st):
+        op = st["op"]
+        ks, vs, ls = env["ks"], env["vs"], env["ls"]
+        if op == "normalize":
+            kw = {"sort": st["sort"], "normtype": {"1": 1, "2": 2, "inf": np.inf}[st["nt"]]}
+            if st["wf"] is not None:
+                kw["weight_factor"] = st["wf"]
+            if st["mode"] is not None:
+                kw["mode"] = st["mode"]
+            ks[st["k"]].normalize(**kw)
+        elif op == "arrange":
+            ks[st["k"]].arrange(weight_factor=st["wf"], permutation=st["perm"])
+        elif op == "fixsigns":
+            ks[st["k"]].fixsigns()
+        elif op == "fixsigns_ref":
+            ks[st["k"]].fixsigns(ks[st["other"]])
+        elif op == "redistribute":
+            ks[st["k"]].redistribute(st["mode"])
+        elif op == "update":
+            ks[st["k"]].update(np.array(st["modes"], dtype=int), vs[st["v"]])
+        elif op == "tovec":
+            vs.append(ks[st["k"]].tovec(st["w"]))
+        elif op == "from_vector":
+            ks.append(ttb.ktensor.from_vector(vs[st["v"]], tuple(st["shape"]), st["w"]))
+        elif op == "extract":
+            ks.append(ks[st["k"]].extract(list(st["idx"])))
+        elif op == "copy":
+            ks.append(ks[st["k"]].copy())
+        elif op == "add":
+            ks.append(ks[st["a"]] + ks[st["b"]])
+        elif op == "sub":
+            ks.append(ks[st["a"]] - ks[st["b"]])
+        elif op == "tolist":
+            ls.append(ks[st["k"]].tolist(st["mode"]))
+        elif op == "construct":
+            ks.append(ttb.ktensor(ls[st["l"]]))
+        else:
+            raise ValueError(op)
+
+    @staticmethod
+    def _roundtrips(T):
+        """the exact round trips of the property on one live object; returns a complaint or None"""
+        N = T.ndims
+        before = _kbytes(T)
+        v = T.tovec(True)
+        if not ttb.ktensor.from_vector(v, T.shape, True).isequal(T):
+            return "from_vector(tovec(K)) no longer reproduces K"
+        v2 = T.tovec(False)
+        B = ttb.ktensor.from_vector(v2, T.shape, False)
+        if any(not np.array_equal(a, b) for a, b in zip(B.factor_matrices, T.factor_matrices)):
+            return "from_vector(tovec(K, False)) no longer reproduces the factor matrices"
+        C = T.copy()
+        if not C.isequal(T):
+            return "copy() differs from the object"
+        C.update(np.arange(-1, N), v)
+        if not C.isequal(T):
+            return "update from tovec() no longer reproduces K"
+        if _kbytes(T) != before or not np.array_equal(v, T.tovec(True)):
+            return "a round trip modified the object or its vector"
+        return None
+
+    def _spec_new(self, st, before_j, after_j):
+        """exact value of what a creating step / update must produce (None = checked by denotation only)"""
+        op = st["op"]
+        ks = before_j["ks"]
+        if op == "tovec":
+            K = ks[st["k"]]
+            R = len(K["weights"])
+            want = (list(K["weights"]) if st["w"] else []) + [x for f in K["factors"] for r in range(R) for x in col(f, r)]
+            return deep_eq(after_j["vs"][-1], want)
+        if op == "copy":
+            return deep_eq(after_j["ks"][-1], ks[st["k"]])
+        if op == "extract":
+            K = ks[st["k"]]
+            want = {"weights": [K["weights"][i] for i in st["idx"]],
+                    "factors": [[[row[i] for i in st["idx"]] for row in f] for f in K["factors"]]}
+            return deep_eq(after_j["ks"][-1], want)
+        if op in ("add", "sub"):
+            A, B = ks[st["a"]], ks[st["b"]]
+            wb = B["weights"] if op == "add" else [jval(-fr(x)) for x in B["weights"]]
+            want = {"weights": list(A["weights"]) + list(wb),
+                    "factors": [[ra + rb for ra, rb in zip(fa, fb)] for fa, fb in zip(A["factors"], B["factors"])]}
+            return deep_eq(after_j["ks"][-1], want)
+        if op == "construct":
+            fs = before_j["ls"][st["l"]]
+            return deep_eq(after_j["ks"][-1], {"weights": [1] * len(fs[0][0]), "factors": fs})
+        if op == "from_vector":
+            d, shp, w = before_j["vs"][st["v"]], st["shape"], st["w"]
+            R = len(d) // (sum(shp) + (1 if w else 0))
+            wts = d[:R] if w else [1] * R
+            off = R if w else 0
+            fs = []
+            for n in shp:
+                seg = d[off:off + n * R]
+                fs.append([[seg[i + n * r] for r in range(R)] for i in range(n)])
+                off += n * R
+            return deep_eq(after_j["ks"][-1], {"weights": wts, "factors": fs})
+        if op == "update":
+            K = ks[st["k"]]
+            d = before_j["vs"][st["v"]]
+            R = len(K["weights"])
+            want = {"weights": list(K["weights"]), "factors": [f for f in K["factors"]]}
+            loc = 0
+            for m in st["modes"]:
+                if m == -1:
+                    want["weights"] = d[loc:loc + R]
+                    loc += R
+                else:
+                    n = len(K["factors"][m])
+                    seg = d[loc:loc + n * R]
+                    want["factors"][m] = [[seg[i + n * r] for r in range(R)] for i in range(n)]
+                    loc += n * R
+            return deep_eq(after_j["ks"][st["k"]], want)
+        return None
+
+    def evaluate(self, cases):
+        models = drive([{"op": "k_seq", "ks": c["ks"], "vs": c["vs"], "ls": c["ls"], "prog": c["prog"]} for c in cases])
+        return [self._judge(c, m) for c, m in zip(cases, models)]
+
+    def _judge(self, c, model):
+        env = {"ks": [mk(K) for K in c["ks"]], "vs": [np.array(v, dtype=float) for v in c["vs"]],
+               "ls": [[np.array(f, dtype=float) for f in l] for l in c["ls"]]}
+        tags = [f"N{len(c['ks'][0]['factors'])}", f"len{len(c['prog'])}"]
+        compare_model = True
+        trace = []
+        nontrivial = nonzero_tensor(c["ks"][0])
+        for i, st in enumerate(c["prog"]):
+            op = st["op"]
+            tags.append(op)
+            before = _snap(env)
+            before_j = _env_j(env)
+            r = call(self._do, env, st)
+            mi = model[i] if i < len(model) else None
+            if "reject" in r:
+                tags.append("reject")
+                trace.append({"step": i, "impl": strip_exc(r)})
+                if mi is not None and "reject" not in mi and compare_model:
+                    return Verdict("corr", f"step {i} ({op}): the implementation refused what the model accepts",
+                                   {"trace": trace, "exc": r.get("msg")}, model, None, tags, nontrivial)
+                return Verdict("ok", "", {"trace": trace}, model, None, tags, nontrivial)
+            after = _snap(env)
+            after_j = _env_j(env)
+            trace.append({"step": i, "op": op})
+            target = ("k", st["k"]) if op in INPLACE or op == "update" else None
+            where = f"step {i} ({op})"
+            # (ii) every other live object is bitwise unchanged
+            for name, val in before.items():
+                if name != target and after.get(name) != val:
+                    kind = {"k": "Kruskal tensor", "v": "vector", "l": "factor list"}[name[0]]
+                    return Verdict("violation", f"{where}: live {kind} #{name[1]} (not the receiver) was modified",
+                                   {"trace": trace, "env": after_j}, model, before_j, tags, nontrivial)
+            # (i) the receiver denotes the same array / the new object is what the call prescribes
+            if op in INPLACE:
+                d0 = denote_j(before_j["ks"][st["k"]])
+                if not vec_close(denote_j(after_j["ks"][st["k"]]), d0):
+                    return Verdict("violation", f"{where}: the receiver no longer denotes the same array",
+                                   {"trace": trace, "env": after_j}, model, before_j, tags, nontrivial)
+            elif op == "tolist":
+                K = before_j["ks"][st["k"]]
+                fs = [[[fr(x) for x in row] for row in f] for f in after_j["ls"][-1]]
+                if not vec_close(denote([1] * len(K["weights"]), fs), denote_j(K)):
+                    return Verdict("violation", f"{where}: the factor list does not denote the tensor",
+                                   {"trace": trace, "env": after_j}, model, before_j, tags, nontrivial)
+            else:
+                ok = self._spec_new(st, before_j, after_j)
+                if ok is False:
+                    return Verdict("violation", f"{where}: the result is not what the call prescribes",
+                                   {"trace": trace, "env": after_j}, model, before_j, tags, nontrivial)
+            # (iii) round trips on the object this step wrote or created
+            T = None
+            if target is not None:
+                T = env["ks"][st["k"]]
+            elif len(after_j["ks"]) > len(before_j["ks"]):
+                T = env["ks"][-1]
+            if T is not None and T.ndims > 0:
+                rt = call(self._roundtrips, T)
+                msg = rt.get("ok") if "ok" in rt else f"a round trip raised {rt.get('exc')}"
+                if msg:
+                    return Verdict("violation", f"{where}: {msg}", {"trace": trace, "env": after_j}, model, before_j,
+                                   tags, nontrivial)
+                if _snap(env) != after:
+                    return Verdict("violation", f"{where}: a round trip modified a live object",
+                                   {"trace": trace, "env": after_j}, model, before_j, tags, nontrivial)
+            # model correspondence of the whole environment
+            if compare_model:
+                if mi is None or "reject" in mi:
+                    return Verdict("corr", f"{where}: the model refuses what the implementation accepts",
+                                   {"trace": trace, "env": after_j}, model, None, tags, nontrivial)
+                if not close(after_j, mi["ok"], 1e-11):
+                    fragile = op == "fixsigns_ref" or (
+                        op in ("normalize", "arrange") and near_ties([fr(x) for x in mi["ok"]["ks"][st["k"]]["weights"]] + (
+                            [fr(x) for x in before_j["ks"][st["k"]]["weights"]] if op == "arrange" else [])))
+                    if op == "arrange" and st.get("wf") is not None:
+                        fragile = True  # order decided by weights that are absorbed afterwards
+                    if fragile:
+                        tags.append("tie")
+                        compare_model = False
+                    else:
+                        return Verdict("corr", f"{where}: the environment differs from the model",
+                                       {"trace": trace, "env": after_j}, mi, None, tags, nontrivial)
+        return Verdict("ok", "", {"trace": trace}, None, None, tags, nontrivial)
+
+
 def families():
-    return [Algebra(), Normalize(), Arrange(), Fixsigns(), FixsignsRef(), Tolist(), Score()]
+    return [Algebra(), Normalize(), Arrange(), Fixsigns(), FixsignsRef(), Tolist(), Score(), Sequences()]
